@@ -26,6 +26,7 @@ ADVERSARIAL = [
     "q&LT;q", "q&GT;q", "q&QUOT;q", "q&1a;q", "q&a1;q", "q&_a;q", "q&a-b;q", "q&a.b;q", "q&amp;amp;q", "q&#38;#38;q",
     "q&ThickSpace;q", "q&nvlt;&nvgt;q", "q&fjlig;q", "q&NotEqualTilde;q", "q&zwnj;q", "q&lt;q&amp;q", "&alpha;",
     "q&#x1D400;q", "q&#x10FFFF;q", "q&Aopf;q", "q&b.alpha;q",
+    "q\r\nq", "\r q \r", "q\rq", "\r\n  q&alpha;\r\n", "q\t\tq", "\n\tq\n", "q \r q", "q&#x20;\rq", "q&#xD;q", "q&#xA;q", "q&#x9;q",
 ]
 
 
@@ -172,6 +173,8 @@ def surface_variants(body, rng):
     vs.append(("xmlns", plain.replace("<math", "<math xmlns='http://www.w3.org/1998/Math/MathML'", 1)))
     ws = re.sub(r">\s*<", lambda m: ">" + rng.choice(["\n", "  ", "\t", "\r\n  "]) + "<", plain)
     vs.append(("whitespace", ws))
+    pad = re.sub(r"<(m[ion]|mtext)>([^<]+)</", lambda m: "<%s>%s%s%s</" % (m.group(1), rng.choice(["\r\n  ", " ", "\n", "\t", "\r"]), m.group(2), rng.choice(["\r\n", "  ", "\n ", "\r"])), plain)
+    vs.append(("whitespace padding inside tokens", pad))
     cm = re.sub(r"><", lambda m: ">" + rng.choice(["", "<!-- c -->", "<?pi x?>", "<!--a--><!--b-->"]) + "<", plain)
     vs.append(("comments/PIs", cm))
     vs.append(("doc prolog", "<?xml version='1.0'?><!-- lead -->" + plain + "<!-- trail -->"))
@@ -221,6 +224,7 @@ def lookalike_known(res):
     probes = {
         "xmlns-lookalike-in-text": ("<math><mtext>see xmlns:foo here</mtext></math>", "see xmlns:foo here"),
         "mathjax-class-lookalike-in-text": ("<math><mtext>class=\"MJX-a\" z</mtext></math>", "class=\"MJX-a\" z"),
+        "foreign-prefix-declaration": ("<math xmlns='http://www.w3.org/1998/Math/MathML' xmlns:xlink='http://www.w3.org/1999/xlink'><mtext>ok</mtext></math>", "ok"),
     }
     for kid, (inp, want) in probes.items():
         r = C.one_session([["set_mathml", inp]])["res"][0]
